@@ -53,6 +53,13 @@ func cmdC12One(descPath, out string) {
 	// touched concurrently, as in a program that builds its packages in parallel right away
 	seen := map[string]bool{}
 	for i, f := range d.Formats {
+		if d.Mode == "signed" {
+			if !seen[f] {
+				seen[f] = true
+				w.line("cref %s %s", xs(f), xs("pkg:signed"))
+			}
+			continue
+		}
 		key := f
 		if d.Mode == "gated-independent" && i == 1 {
 			key = "2:" + f
@@ -80,13 +87,35 @@ func cmdC12One(descPath, out string) {
 				cfg, _ = parseDoc(d.YAML)
 			}
 			delay := time.Duration(rng.Intn(300)) * time.Microsecond
+			if d.Mode == "signed" {
+				delay = 0 // lazily initialised signing state is touched by everybody at once
+			}
 			wg.Add(1)
 			go func(i int, f string, cfg *nfpm.Config, delay time.Duration) {
 				defer wg.Done()
 				<-start
 				time.Sleep(delay)
-				res[i] = runOp(cfg, "pkg:"+f)
+				if d.Mode == "signed" {
+					res[i] = packageSignedOp(cfg, f)
+				} else {
+					res[i] = runOp(cfg, "pkg:"+f)
+				}
 			}(i, f, cfg, delay)
+		}
+		// meanwhile other goroutines look packagers up - under their names, under names nobody registered - and validate
+		for _, name := range []string{"deb", "zst", "pkg.tar.zst", ".deb", "rpm", "nosuch", "apk", "tar.gz", "ipk", "archlinux"} {
+			vcfg, _ := parseDoc(d.YAML)
+			wg.Add(1)
+			go func(name string, vcfg *nfpm.Config) {
+				defer wg.Done()
+				<-start
+				for k := 0; k < 20; k++ {
+					nfpm.Get(name)
+					if vcfg != nil && k%5 == 0 {
+						vcfg.Validate()
+					}
+				}
+			}(name, vcfg)
 		}
 		close(start)
 		wg.Wait()
@@ -170,6 +199,33 @@ type c12Stats struct {
 	samples                 []string
 }
 
+// packageSignedOp: the packaging with a passphrase-protected key (signatures differ from run to run: only success
+// and the race detector's verdict are observed)
+func packageSignedOp(cfg *nfpm.Config, format string) string {
+	info, err := cfg.Get(format)
+	if err != nil {
+		return "pkg-err:parse"
+	}
+	info = nfpm.WithDefaults(info)
+	switch format {
+	case "deb":
+		info.Deb.Signature.KeyFile, info.Deb.Signature.KeyPassphrase = testdata("privkey.asc"), testPass
+	case "rpm":
+		info.RPM.Signature.KeyFile, info.RPM.Signature.KeyPassphrase = testdata("privkey.asc"), testPass
+	case "apk":
+		info.APK.Signature.KeyFile, info.APK.Signature.KeyPassphrase, info.APK.Signature.KeyName = testdata("rsa.priv"), testPass, "verif"
+	}
+	p, err := nfpm.Get(format)
+	if err != nil {
+		return "pkg-err:" + err.Error()
+	}
+	var buf limitedWriter
+	if err := p.Package(info, &buf); err != nil {
+		return "pkg-err:" + err.Error()
+	}
+	return "pkg:signed"
+}
+
 type c12Job struct {
 	id string
 	d  concDesc
@@ -184,6 +240,9 @@ func runC12Group(w *caseWriter, jobs []c12Job, st *c12Stats) {
 	defer removeExtraFiles(jobs[0].d.Files)
 	for i := range jobs {
 		jobs[i].d.Refs = map[string]string{}
+		if jobs[i].d.Mode == "signed" {
+			continue
+		}
 		for k, f := range jobs[i].d.Formats {
 			if jobs[i].d.Mode == "gated-independent" && k == 1 {
 				jobs[i].d.Refs["2:"+f] = freshProcessOutput(jobs[i].d.YAML2, "pkg:"+f)
@@ -317,6 +376,12 @@ func cmdC12(tier string, seed int64, out, statsOut, replay string) {
 			runC12Case(w, fmt.Sprintf("shared-%d-p%d", ci, p), concDesc{YAML: doc, Files: gen.files, Mode: "shared", Formats: allFormats, Procs: p, Rounds: rounds, Seed: seed + int64(ci)}, st)
 			// any formats from independently built settings: every format twice, and one format six times
 			runC12Case(w, fmt.Sprintf("indep-%d-p%d", ci, p), concDesc{YAML: doc, Files: gen.files, Mode: "independent", Formats: twice, Procs: p, Rounds: rounds, Seed: seed + int64(ci)}, st)
+			// signed packagings with a passphrase-protected key, from independent configurations (each child process
+			// is one chance to see the first use of the key from many goroutines at once)
+			for k := 0; k < 2; k++ {
+				runC12Case(w, fmt.Sprintf("signed-%d-p%d-%d", ci, p, k), concDesc{YAML: doc, Files: gen.files, Mode: "signed",
+					Formats: []string{"deb", "rpm", "deb", "rpm", "deb", "rpm", "deb", "rpm", "apk", "apk", "deb", "rpm"}, Procs: p, Rounds: 1, Seed: seed + int64(ci)}, st)
+			}
 			f := allFormats[(ci+p)%len(allFormats)]
 			runC12Case(w, fmt.Sprintf("same-%d-p%d-%s", ci, p, f), concDesc{YAML: doc, Files: gen.files, Mode: "independent", Formats: []string{f, f, f, f, f, f}, Procs: p, Rounds: rounds, Seed: seed + int64(ci)}, st)
 		}
